@@ -338,7 +338,12 @@ func (c *codec) evalInput(ic *inputCase) (string, bool, []finding) {
 			detail = "decoder " + c.name + ": " + detail
 		case class == "limit":
 			key = fmt.Sprintf("limit:%s:%s:%s", oracle, c.name, lb)
-		case oracle == "hash-differs" || oracle == "size-differs":
+		case strings.HasPrefix(oracle, "cross-"):
+			key = fmt.Sprintf("%s:%s", oracle, c.name)
+			if o := ownerOf(detail); o != "" {
+				key += ":" + o
+			}
+		case oracle == "hash-differs" || oracle == "size-differs" || oracle == "size-differs-from-encoding":
 			key = fmt.Sprintf("%s:%s:%s", class, oracle, c.name)
 			if lb != "" {
 				key += ":" + lb
@@ -413,7 +418,12 @@ func (c *codec) evalInput(ic *inputCase) (string, bool, []finding) {
 			if s, s2 := c.size(v), c.size(v2); s != s2 && s >= 0 {
 				bad("size-differs", fmt.Sprintf("size of the decoded value %d, size after re-encoding and decoding %d (re-encoding is %d bytes)", s, s2, len(b1)))
 			}
+			// the reported size of an accepted value is the length of its encoding
+			if s := c.size(v); s >= 0 && s != len(c1)+c.sizeAdj {
+				bad("size-differs-from-encoding", fmt.Sprintf("decoded value reports size %d, its encoding is %d bytes (expected size %d): %s", s, len(c1), len(c1)+c.sizeAdj, clip(c1)))
+			}
 		}
+		c.crossCheck(v, bad)
 	}); p != "" {
 		bad("panic", p)
 		outcome = "panic"
@@ -1105,8 +1115,8 @@ func TestCheck(t *testing.T) {
 	report := func(f finding) { r.Violation(f.Key, f) }
 	// development aid: C17_PHASE=ext runs only the extension phases (E..H)
 	devPhase := os.Getenv("C17_PHASE")
-	ext := runExtPhases(r, th)
 	if devPhase == "ext" {
+		ext := runExtPhases(r, th)
 		r.Finish(map[string]any{"evaluations": ext.evals, "distinct_nontrivial": ext.nontrivial, "rule": "development run of the extension phases", "extension": ext.info}, nil)
 	}
 
@@ -1178,6 +1188,9 @@ func TestCheck(t *testing.T) {
 	tD := time.Now()
 	dagEvals, dagNontrivial, dagInfo := dagPhase(r, th, report)
 	fmt.Printf("phase D (item graphs with sharing): %v, %d evaluations in %.1fs\n", dagInfo, dagEvals, time.Since(tD).Seconds())
+
+	// ---- phases E..: extension families (in process) ----
+	ext := runExtPhases(r, th)
 
 	// ---- phase C: decoder robustness in worker processes ----
 	tC := time.Now()
@@ -1405,6 +1418,8 @@ func replay(r *vk.Run) {
 		n = replayPath(r, f)
 	case f.Mode == "dag":
 		n = replayDag(r, f)
+	case f.Mode == "jsonmut":
+		n = replayJSONMut(r, f)
 	case c == nil:
 		fmt.Println("replay: unknown codec", f.Codec)
 	case f.Mode == "value":
